@@ -6,7 +6,7 @@
    C++ (HEAD):
      directional_add(a, b)  = (complex(0,1) * (a.colwise() + b)).array().exp().arg()
      directional_sub(a, b)  = directional_add(a, -b)
-     directional_mean(a, w) = a.cols() == 1 ? a.col(0)
+     directional_mean(a, w) = a.cols() == 1 ? directional_add(a.col(0), 0)
                             : ((complex(0,1) * a).array().exp().matrix() * w).array().arg()
    std::exp(complex(re, im)) = (exp(re) cos(im), exp(re) sin(im));
    std::arg(z) = atan2(imag z, real z). *)
@@ -48,9 +48,9 @@ Definition resultant (row w : list t) : cplx :=
 
 Definition mean_row (row w : list t) : t := carg (resultant row w).
 
-(* cols is a.cols(); one column only: returned as is *)
+(* cols is a.cols(); one column only: that column, wrapped (directional_add(a.col(0), 0)) *)
 Definition dir_mean (cols : nat) (a : list (list t)) (w : list t) : list t :=
-  if Nat.eqb cols 1 then map (fun row => nth 0 row (s0 S)) a
+  if Nat.eqb cols 1 then map (fun row => wrap (sadd S (nth 0 row (s0 S)) (s0 S))) a
   else map (fun row => mean_row row w) a.
 
 End Directional.
